@@ -19,7 +19,7 @@ from gbasis.integrals.momentum import MomentumIntegral
 from gbasis.integrals.overlap import Overlap
 from gbasis.integrals.point_charge import PointChargeIntegral
 
-RULE = ("Hypothesis draws a basis of 1-3 generalized mixed-type shells (K 1-4, M 1-4, l 0..4; ERI: l <= 2, exponents 0.1-10), an "
+RULE = ("Hypothesis draws a basis of 1-2 (thorough: 1-3) generalized mixed-type shells (K and M up to 3, l 0..3; thorough: up to 4; ERI: l <= 2, exponents 0.1-10), an "
         "environment and a rewriting of one shell: (split) the M-column shell into M single-column shells; (permute) every "
         "permutation of its primitives (<= 24, enumerated inside the case); (split-prim) one primitive into two with coefficient "
         "shares (t, 1-t), t in -0.5..1.5; (scale) one column multiplied by s, |s| log-uniform 1e-6..1e6, either sign.  Oracle "
